@@ -1,29 +1,6 @@
-(* Proofs/WF.v -- well-formed machine states (every field within its Go type) and the
-   bridge between the generated memory dispatch and the specification's. *)
-From Z80V Require Export Proofs.Struct Spec.Exec Gen.Names.
-
-Definition WF_reg (r : Register) := is8 (Register_Hi r) /\ is8 (Register_Lo r).
-Definition WF_gpr (g : GPR) := WF_reg (GPR_AF g) /\ WF_reg (GPR_BC g) /\ WF_reg (GPR_DE g) /\ WF_reg (GPR_HL g).
-Definition WF_mem (m : MemRef) := match m with UserMem => True | Im0Mem d => Forall is8 (im0data_data d) end.
-Definition WF_irq (o : option Interrupt) := match o with None => True | Some i => Forall is8 (Interrupt_Data i) end.
-Definition WF (cpu : CPU) :=
-  WF_gpr (g_GPR cpu) /\ WF_gpr (g_Alternate cpu) /\ WF_reg (g_IR cpu) /\
-  is16 (g_IX cpu) /\ is16 (g_IY cpu) /\ is16 (g_SP cpu) /\ is16 (g_PC cpu) /\
-  WF_mem (g_Memory cpu) /\ WF_irq (g_Interrupt cpu).
-
-(* a fixed state used to read off the pure part of a generated helper *)
-Definition cpu0 : CPU :=
-  mk_CPU (mk_States (mk_GPR (mk_Register 0 0) (mk_Register 0 0) (mk_Register 0 0) (mk_Register 0 0))
-           (mk_SPR (mk_Register 0 0) 0 0 0 0)
-           (mk_GPR (mk_Register 0 0) (mk_Register 0 0) (mk_Register 0 0) (mk_Register 0 0)) false false 0)
-    UserMem false false false None None false (mk_World (fun _ => 0) [] []).
-Example cpu0_WF : WF cpu0.
-Proof. cbv [WF WF_gpr WF_reg WF_mem WF_irq cpu0]; cbv_struct; unfold is8, is16; repeat split; try lia. Qed.
-
-Ltac destruct_if :=
-  match goal with |- context [if ?c then _ else _] => destruct c eqn:? end.
-Ltac wf_destruct H :=
-  cbv [WF WF_gpr WF_reg] in H; cbv_struct_in H; decompose [and] H; clear H.
+(* Proofs/WF.v -- the bridge between the generated memory dispatch and the specification's
+   (well-formed states: Proofs/WFDef.v) *)
+From Z80V Require Export Proofs.Struct Spec.Exec Gen.Names Proofs.WFDef.
 
 (* the generated dispatch (Gen/Mem.v, with im0data.Get/Set translated from cpu.go) is the
    specification's memory access *)
@@ -42,17 +19,3 @@ Proof. unfold Mem_Get, mem_get. rewrite W_Get_ok. reflexivity. Qed.
 Lemma Mem_Set_ok cpu m a v : Mem_Set cpu m a v = mem_set cpu m a v.
 Proof. unfold Mem_Set, mem_set. rewrite W_Set_ok. reflexivity. Qed.
 
-(* bytes come out of memory *)
-Lemma nth_Z_byte i l : Forall is8 l -> is8 (nth_Z i l).
-Proof.
-  intros H. unfold nth_Z. destruct (nth_in_or_default (Z.to_nat i) l 0) as [Hin| ->].
-  - rewrite Forall_forall in H. apply H, Hin.
-  - unfold is8; lia.
-Qed.
-Lemma wget_byte w m a : WF_mem m -> is8 (snd (wget w m a)).
-Proof.
-  intros H. destruct m as [|d]; cbv [wget]; cbv_struct; [apply is8_u8|].
-  destruct_if; cbv_struct; [apply is8_u8|].
-  destruct_if; cbv_struct; [apply nth_Z_byte, H | unfold is8; lia].
-Qed.
-#[global] Hint Resolve wget_byte nth_Z_byte : ranges.
